@@ -2,7 +2,7 @@
 # tools/runall.sh [tier] [ids...]   run the checks one after the other, one summary line each
 cd "$(dirname "$0")/.."
 TIER=${1:-quick}; shift 2>/dev/null
-IDS=${*:-C01 C02 C03 C04 C05 C06 C07 C08 C09 C10 C11 C12 C13 C14 C15 C16 C17 C18 C19 C20 X01 X02 X03 X04 X05 X06 X07 X08 X09 X10 X11 X12 X13 X14 X15 X16 X17 X18 X19 X20 X21}
+IDS=${*:-C01 C02 C03 C04 C05 C06 C07 C08 C09 C10 C11 C12 C13 C14 C15 C16 C17 C18 C19 C20 X01 X02 X03 X04 X05 X06 X07 X08 X09 X10 X11 X12 X13 X14 X15 X16 X17 X18 X19 X20 X21 X22 X23 X24}
 rc=0
 for c in $IDS; do
   out=$(./check $c --tier $TIER 2>&1); r=$?
